@@ -4,6 +4,7 @@ import (
 	"context"
 	"errors"
 	"fmt"
+	"math"
 	"runtime/debug"
 	"sort"
 	"strings"
@@ -27,7 +28,54 @@ import (
 	"verif/sim/reflog"
 )
 
-const treeID = 4242
+// Edge-and-configuration audit of C20 (what the statement quantifies over -> what the code compares ->
+// what the generator draws; "probe" names the reach probe of a rarely hit combination).
+//
+//	source sizes / growth / unparsable entries
+//	  code: Fetcher.Prepare EndIndex==0||>size; genRanges start<end, min(end-start,batch); runWorker
+//	        r.start<=r.end, r.start+=len(entries); fetchTail sth.TreeSize<=begin; buildLogLeaf IsFatal / non-fatal
+//	  draw: N0 0, 1.., and on the edges batch-1/batch/batch+1/2batch/2batch+1/3batch-1 and 2^k-1/2^k/2^k+1
+//	        (edge.source-size); growth in steps of 1..12; x509 / precert / precert-signing issuer / empty
+//	        certificate_chain (entry.empty-chain.copied) / certificate with a NON-fatal parse error
+//	        (entry.nonfatal-x509-error.copied) / unparsable certificate (3 shapes) / duplicates (leaf-index mode);
+//	        honest but lagging front end: validly signed OLDER STH, also smaller than the destination
+//	        (sth.stale.*); short read 1..n-1; 200 with zero entries (rpc.empty); structurally malformed entry
+//	        (entries.malformed.*: truncated / trailing leaf, unknown entry type, trailing / empty extra_data)
+//	destination states
+//	  code: verifyConsistency treeSize==0; StartIndex<0 -> treeSize; int64(begin)>StartIndex; getRoot rsp==nil,
+//	        SignedLogRoot==nil, UnmarshalBinary errors; addSequencedLeaves OK with rsp==nil
+//	  draw: empty / prefix (1, 2, N-1, N) / full / with a hole; integrated 0, 1, k-1, k; root replies without a
+//	        usable root (root.malformed.*: nil response, nil root, empty, truncated, wrong version); OK reply without
+//	        a message (rpc.nilrsp); a backend that knows only its own tree id (1, 4242, MaxInt64)
+//	batch sizes, fetcher / submitter counts, channel
+//	  code: OptionsFromConfig NumFetchers==0 -> 1, NumSubmitters==0 -> 1; make(chan, ChannelSize)
+//	  draw: batch 1,2,3,5,8,16,1000; fetchers / submitters 0 (absent),1,2,3; channel 0..4, 64
+//	continuous or one-shot, start_index, end_index
+//	  code: fetchTail ignores both in continuous mode; one-shot: StartIndex<0, EndIndex==0, EndIndex>size
+//	  draw: one-shot start -1, -7, 0, integrated-1 / integrated / integrated+1..3 (a hole by configuration:
+//	        config.start-index-above-destination), N0-1 / N0 / N0+1; end 0, 1, N0-1 / N0 / N0+1, start-1 / start /
+//	        start+1 (empty ranges: oneshot.success-complete.empty-range), inside (…end-index-bounded); continuous
+//	        runs get non-default start/end too and must ignore them. Oracles use wantRange(): [max(start,0), end|size)
+//	consistency gate
+//	  code: treeSize==0; NoConsistencyCheck; first==second (empty proof); first>second (source 400)
+//	  draw: forked source larger / equal / smaller than the destination, fork at 0..integrated-1 (root size 1 with
+//	        fork at 0 included); proofs flipped / dropped / extended / replaced / with a 31-byte hash; empty proof as
+//	        [] or with the field absent (proof.empty.field-absent); no_consistency_check=true with honest sources only
+//	        (config.no-consistency-check: the gate clauses are silent there); STHs that do not verify in six ways
+//	        (sth.bad.*)
+//	quota / fatal errors / cancellations / restarts / mastership
+//	  code: ResourceExhausted only -> retry, back-off 1s x3 up to 1min; everything else ends the pass
+//	  draw: quota bursts (quota.burst, quota.burst.5plus = past the back-off cap), 14 other codes, hang,
+//	        applied-then-error, cancel, crash + fresh controller, restart, NewElection / Await / WithMastership / Resign
+//	        errors, already-cancelled mastership context, Close error (hash-derived; only logged by the caller)
+//	interfaces the controller accepts from its caller: *client.LogClient (real, over the seam transport, source_uri
+//	  with and without trailing slash), TrillianLogClient (seam), election2.Factory (seam), monitoring.MetricFactory
+//	  (inert: used once behind a sync.Once for counters only), context (driver events), klog (discarded).
+//	  Entry points: Run, RunWhenMaster, RunWhenMasterWithRestarts; core.RunMigration only for the honestly answered
+//	  settle restart (entry.RunMigration), because a panic on its extra goroutine could not become a verdict.
+//	not generated (outside what the statement quantifies over): negative fetcher / submitter / channel counts
+//	  (unvalidated configuration: no workers at all), StopAfter (not reachable from the configuration), a source
+//	  that returns more entries than asked or well-formed entries that are not its own.
 
 // Profile is drawn per run (swarm style).
 type Profile struct {
@@ -39,6 +87,10 @@ type Profile struct {
 	Submitters  int
 	ChannelSize int
 	StartIndex  int64
+	EndIndex    int64
+	NoCheck     bool // no_consistency_check
+	TreeID      int64
+	Slash       bool // source_uri ends in "/"
 	StartDelay  time.Duration
 	KeyKind     string
 
@@ -57,6 +109,7 @@ type Profile struct {
 	Crashes   int
 	Restarts  int
 	SeqWeight int
+	SeqOff    bool // C16ctl: no sequencer step before the settle phase
 	Budget    int
 }
 
@@ -79,6 +132,7 @@ type pass struct {
 }
 
 type quotaRec struct {
+	Burst   int
 	Count   int
 	At      time.Duration
 	Retried bool
@@ -106,6 +160,7 @@ type incarnation struct {
 	Abandoned bool // crashed: whatever it still does is ignored
 	Cancelled bool
 	Pass      *pass
+	ep        *epoch // C16ctl
 	Passes    int
 	Hung      int
 	InSettle  bool
@@ -119,6 +174,7 @@ func (i *incarnation) finished() bool {
 
 // World is the migrate world.
 type World struct {
+	mode Mode
 	s    *kernel.Sim
 	h    *hub
 	prof Profile
@@ -132,9 +188,10 @@ type World struct {
 	cur  *incarnation
 
 	// timed mode only (timed.go): every piece of world state is touched with mu held
-	mu       sync.Mutex
-	tocc     map[string]int
-	refusals int
+	mu          sync.Mutex
+	tocc        map[string]int
+	timedSettle bool
+	refusals    int
 
 	seen     map[string]bool
 	open     map[string]*kernel.Parked
@@ -158,7 +215,7 @@ type World struct {
 }
 
 // New returns the world constructor.
-func New() func() kernel.World { return func() kernel.World { return &World{} } }
+func New(mode Mode) func() kernel.World { return func() kernel.World { return &World{mode: mode} } }
 
 var fatalCodes = []codes.Code{codes.Internal, codes.Unknown, codes.InvalidArgument, codes.PermissionDenied, codes.FailedPrecondition,
 	codes.NotFound, codes.Unavailable, codes.DeadlineExceeded, codes.Aborted, codes.DataLoss, codes.Unimplemented, codes.Unauthenticated, codes.OutOfRange, codes.Canceled}
@@ -166,7 +223,11 @@ var fatalCodes = []codes.Code{codes.Internal, codes.Unknown, codes.InvalidArgume
 var httpFaultCodes = []int{429, 500, 503, 502, 404}
 
 var faultKinds = []string{"http.status", "net.err", "net.cut", "rpc.short", "net.hang", "http.garbage", "proof.bad", "sth.badsig",
-	"quota", "rpc.status", "rpc.hang", "rpc.lateerr", "el.err", "el.lost"}
+	"quota", "rpc.status", "rpc.hang", "rpc.lateerr", "el.err", "el.lost",
+	"sth.stale", "rpc.empty", "entries.malformed", "rpc.malformed", "rpc.nilrsp"}
+
+// rootMalformedKinds are GetLatestSignedLogRoot replies without a usable log root.
+var rootMalformedKinds = []string{"nil-response", "nil-root", "root-empty", "root-truncated", "root-version"}
 
 // Init implements kernel.World.
 func (w *World) Init(s *kernel.Sim) {
@@ -183,7 +244,16 @@ func (w *World) Init(s *kernel.Sim) {
 	p.BatchSize = []int{1000, 1, 2, 3, 5, 8, 16}[t.Intn(7)]
 	p.Fetchers = t.Range(1, 3)
 	p.Submitters = t.Range(1, 3)
-	p.ChannelSize = t.Range(0, 4)
+	if t.Chance(1, 6) {
+		p.Fetchers = 0 // num_fetchers not specified: documented as 1
+	}
+	if t.Chance(1, 6) {
+		p.Submitters = 0 // num_submitters not specified: documented as 1
+	}
+	p.ChannelSize = []int{0, 1, 2, 3, 4, 64}[t.Intn(6)]
+	p.TreeID = []int64{4242, 1, math.MaxInt64}[t.Intn(3)]
+	p.Slash = t.Chance(1, 2)
+	p.NoCheck = t.Chance(1, 8)
 	p.StartDelay = []time.Duration{0, 0, 3 * time.Second}[t.Intn(3)]
 	p.KeyKind = []string{"p256", "p256", "p256", "rsa2048"}[t.Intn(4)]
 
@@ -195,6 +265,18 @@ func (w *World) Init(s *kernel.Sim) {
 	if t.Chance(1, 12) {
 		p.N0 = 0
 	}
+	if t.Chance(1, 4) {
+		// tree sizes on the edges of the code's arithmetic: around multiples of the batch size, around powers of two
+		b := p.BatchSize
+		var edges []int
+		for _, n := range []int{b - 1, b, b + 1, 2 * b, 2*b + 1, 3*b - 1, 1, 2, 3, 4, 5, 7, 8, 9, 15, 16, 17, 31, 32, 33, 63, 64, 65} {
+			if n >= 1 && n <= 80 {
+				edges = append(edges, n)
+			}
+		}
+		p.N0 = edges[t.Intn(len(edges))]
+		s.Probe("edge.source-size")
+	}
 	p.Growth = 0
 	if t.Chance(2, 3) {
 		g := 8 * p.BatchSize
@@ -203,7 +285,7 @@ func (w *World) Init(s *kernel.Sim) {
 		}
 		p.Growth = t.Range(1, g)
 	}
-	p.Mix = entryMix{PrecertPct: []int{30, 0, 60, 100}[t.Intn(4)], BadPct: []int{0, 10, 30}[t.Intn(3)], PreIssuer: t.Chance(1, 2)}
+	p.Mix = entryMix{PrecertPct: []int{30, 0, 60, 100}[t.Intn(4)], BadPct: []int{0, 10, 30}[t.Intn(3)], PreIssuer: t.Chance(1, 2), EdgePct: []int{0, 15}[t.Intn(2)]}
 	if p.IDFunc == "index" && t.Chance(1, 2) {
 		p.Mix.DupPct = []int{10, 30}[t.Intn(2)]
 	}
@@ -216,10 +298,17 @@ func (w *World) Init(s *kernel.Sim) {
 	switch p.DestKind {
 	case "prefix":
 		k := t.Range(1, p.N0)
+		if t.Chance(1, 4) {
+			k = []int{1, 2, p.N0 - 1, p.N0}[t.Intn(4)]
+			k = min(max(k, 1), p.N0)
+		}
 		p.Stored = [][2]int{{0, k}}
 		p.Integrated = k
 		if t.Chance(1, 3) {
 			p.Integrated = t.Range(0, k)
+			if t.Chance(1, 3) {
+				p.Integrated = []int{0, 1, k - 1}[t.Intn(3)] // root size 0 / 1: on both sides of "treeSize == 0"
+			}
 		}
 	case "full":
 		p.Stored = [][2]int{{0, p.N0}}
@@ -243,21 +332,46 @@ func (w *World) Init(s *kernel.Sim) {
 			p.Integrated = a
 		}
 	}
+	// start_index / end_index: every class the code distinguishes. One-shot runs honour them, continuous
+	// runs are documented to ignore both.
 	p.StartIndex = -1
 	if !p.Continuous {
-		switch t.Intn(3) {
-		case 1:
-			p.StartIndex = 0
-		case 2:
-			p.StartIndex = int64(t.Range(0, p.Integrated))
+		cands := []int{-1, 0, t.Range(0, p.Integrated), -7, p.Integrated, p.Integrated - 1, p.Integrated + t.Range(1, 3), p.N0, p.N0 + 1, p.N0 - 1}
+		c := cands[t.Pick([]int{4, 2, 2, 1, 1, 1, 1, 1, 1, 1})]
+		if c < -7 {
+			c = 0
 		}
+		p.StartIndex = int64(c)
+		stored0 := 0
+		if len(p.Stored) > 0 {
+			stored0 = p.Stored[0][1]
+		}
+		if c > stored0 {
+			s.Probe("config.start-index-above-destination") // a hole by configuration
+		}
+		lo := max(c, 0)
+		ends := []int{0, 1, p.N0 - 1, p.N0, p.N0 + 1, lo, lo - 1, lo + 1, t.Range(1, max(p.N0, 1))}
+		e := ends[t.Pick([]int{8, 1, 1, 1, 1, 1, 1, 1, 2})]
+		if e < 0 {
+			e = 0
+		}
+		p.EndIndex = int64(e)
+	} else {
+		p.StartIndex = []int64{-1, -1, -1, 0, int64(p.Integrated + 2), int64(p.N0 + 5)}[t.Intn(6)]
+		p.EndIndex = []int64{0, 0, 0, 1, int64(p.N0 / 2)}[t.Intn(5)]
+	}
+	if p.EndIndex != 0 {
+		s.Probe("config.end-index-set")
 	}
 	p.SrcMode = "honest"
 	forkOdds := 5
 	if p.DestKind == "full" && p.Integrated == p.N0 {
 		forkOdds = 2 // a complete mirror meeting a rewritten source: the gate is all that stands between them
 	}
-	if p.Integrated > 0 && t.Chance(1, forkOdds) {
+	if p.NoCheck {
+		// with the gate switched off by configuration only a consistent source is in the property's scope
+		s.Probe("config.no-consistency-check")
+	} else if p.Integrated > 0 && t.Chance(1, forkOdds) {
 		p.SrcMode = "forked"
 		p.ForkAt = t.Range(0, p.Integrated-1)
 		if t.Chance(1, 3) {
@@ -282,6 +396,9 @@ func (w *World) Init(s *kernel.Sim) {
 	p.SeqWeight = t.Range(1, 6)
 	p.Budget = t.Range(40, 320)
 	w.cancelsLeft, w.lostLeft, w.crashesLeft, w.restartsLeft, w.growthLeft = p.Cancels, p.Lost, p.Crashes, p.Restarts, p.Growth
+	if w.mode.Ctl {
+		w.ctlProfile()
+	}
 	if s.Timed {
 		w.timedProfile()
 	}
@@ -300,6 +417,9 @@ func (w *World) build() {
 	}
 	key := oracle.Keys(p.KeyKind)[1+t.Intn(2)]
 	w.src = &Source{Key: key, Hist: honest, Honest: honest, Size: p.N0, BaseURI: "http://source.log.test/sim"}
+	if p.Slash {
+		w.src.BaseURI += "/"
+	}
 
 	w.idFn = configpb.IdentityFunction_SHA256_CERT_DATA
 	if p.IDFunc == "index" {
@@ -307,10 +427,10 @@ func (w *World) build() {
 	}
 
 	// destination, filled by hand with the honest history (never through the code under test)
-	w.dst = reflog.New(treeID, epoch.Add(-time.Minute).UnixNano())
+	w.dst = reflog.New(p.TreeID, epoch.Add(-time.Minute).UnixNano())
 	w.dst.PreOrdered = true
 	for _, seg := range p.Stored {
-		req := &trillian.AddSequencedLeavesRequest{LogId: treeID}
+		req := &trillian.AddSequencedLeavesRequest{LogId: p.TreeID}
 		for i := seg[0]; i < seg[1]; i++ {
 			e := honest.Entries[i]
 			req.Leaves = append(req.Leaves, &trillian.LogLeaf{LeafValue: e.Leaf, ExtraData: e.Extra, LeafIndex: int64(i), LeafIdentityHash: w.prepopIdentity(int64(i), e)})
@@ -337,16 +457,18 @@ func (w *World) build() {
 	}
 
 	cfg := &configpb.MigrationConfig{
-		SourceUri:        w.src.BaseURI,
-		PublicKey:        &keyspb.PublicKey{Der: key.SPKI},
-		LogId:            treeID,
-		BatchSize:        int32(p.BatchSize),
-		IsContinuous:     p.Continuous,
-		StartIndex:       p.StartIndex,
-		NumFetchers:      int32(p.Fetchers),
-		NumSubmitters:    int32(p.Submitters),
-		ChannelSize:      int32(p.ChannelSize),
-		IdentityFunction: w.idFn,
+		SourceUri:          w.src.BaseURI,
+		PublicKey:          &keyspb.PublicKey{Der: key.SPKI},
+		LogId:              p.TreeID,
+		BatchSize:          int32(p.BatchSize),
+		IsContinuous:       p.Continuous,
+		StartIndex:         p.StartIndex,
+		EndIndex:           p.EndIndex,
+		NoConsistencyCheck: p.NoCheck,
+		NumFetchers:        int32(p.Fetchers),
+		NumSubmitters:      int32(p.Submitters),
+		ChannelSize:        int32(p.ChannelSize),
+		IdentityFunction:   w.idFn,
 	}
 	if err := core.ValidateMigrationConfig(cfg); err != nil {
 		panic("harness: generated config rejected: " + err.Error())
@@ -354,8 +476,8 @@ func (w *World) build() {
 	w.opts = core.OptionsFromConfig(cfg)
 	w.opts.StartDelay = p.StartDelay
 
-	s.Logf("profile id=%s mode=%s cont=%v batch=%d fetch=%d submit=%d chan=%d start=%d delay=%v key=%s n0=%d growth=%d mix=%+v dest=%s stored=%v integrated=%d src=%s forkAt=%d forkSize=%d faults=%s cancels=%d lost=%d crashes=%d restarts=%d budget=%d",
-		p.IDFunc, p.RunMode, p.Continuous, p.BatchSize, p.Fetchers, p.Submitters, p.ChannelSize, p.StartIndex, p.StartDelay, key.Name, p.N0, p.Growth, p.Mix,
+	s.Logf("profile id=%s mode=%s cont=%v batch=%d fetch=%d submit=%d chan=%d start=%d end=%d nocheck=%v tree=%d slash=%v delay=%v key=%s n0=%d growth=%d mix=%+v dest=%s stored=%v integrated=%d src=%s forkAt=%d forkSize=%d faults=%s cancels=%d lost=%d crashes=%d restarts=%d budget=%d",
+		p.IDFunc, p.RunMode, p.Continuous, p.BatchSize, p.Fetchers, p.Submitters, p.ChannelSize, p.StartIndex, p.EndIndex, p.NoCheck, p.TreeID, p.Slash, p.StartDelay, key.Name, p.N0, p.Growth, p.Mix,
 		p.DestKind, p.Stored, p.Integrated, p.SrcMode, p.ForkAt, p.ForkSize, fmtFaults(p.Fault), p.Cancels, p.Lost, p.Crashes, p.Restarts, p.Budget)
 	if !s.Timed { // timed mode starts the controller in TimedRun, once TimedDecide is installed
 		w.startIncarnation("initial")
@@ -410,15 +532,15 @@ func (w *World) fork(at, size int) {
 // startIncarnation builds a fresh controller the way migrillian's main does and runs it.
 func (w *World) startIncarnation(why string) {
 	s := w.s
-	inc := &incarnation{ID: len(w.incs) + 1, hist: w.src.Hist, InSettle: !s.FaultsOn(), doneCh: make(chan struct{})}
+	inc := &incarnation{ID: len(w.incs) + 1, hist: w.src.Hist, InSettle: !s.FaultsOn() || w.timedSettle, doneCh: make(chan struct{})}
 	inc.ctx, inc.cancel = context.WithCancel(context.Background())
 	hc := &http.Client{Timeout: 10 * time.Second, Transport: &srcTransport{h: w.h, inc: inc.ID}}
 	ctClient, err := client.New(w.src.BaseURI, hc, jsonclient.Options{PublicKeyDER: w.src.Key.SPKI, UserAgent: "ct-go-migrillian/1.0"})
 	if err != nil {
 		panic("harness: client.New: " + err.Error())
 	}
-	tree := &trillian.Tree{TreeId: treeID, TreeType: trillian.TreeType_PREORDERED_LOG, TreeState: trillian.TreeState_ACTIVE}
-	pl, err := core.NewPreorderedLogClient(&dstClient{h: w.h, inc: inc.ID}, tree, w.idFn, fmt.Sprintf("%d", treeID))
+	tree := &trillian.Tree{TreeId: w.prof.TreeID, TreeType: trillian.TreeType_PREORDERED_LOG, TreeState: trillian.TreeState_ACTIVE}
+	pl, err := core.NewPreorderedLogClient(&dstClient{h: w.h, inc: inc.ID}, tree, w.idFn, fmt.Sprintf("%d", w.prof.TreeID))
 	if err != nil {
 		panic("harness: NewPreorderedLogClient: " + err.Error())
 	}
@@ -428,6 +550,13 @@ func (w *World) startIncarnation(why string) {
 	w.cur = inc
 	s.Logf("start controller c%d (%s) mode=%s", inc.ID, why, w.prof.RunMode)
 	mode := w.prof.RunMode
+	if mode == "master-restarts" && inc.InSettle {
+		// core.RunMigration (multi.go) starts RunWhenMasterWithRestarts on a goroutine of its own, where a
+		// panic of the controller could not be turned into a verdict: it is used for the honestly answered
+		// restart of the settle phase only
+		mode = "migration"
+		s.Probe("entry.RunMigration")
+	}
 	s.Go(func() {
 		var rerr error
 		hasRV := true
@@ -449,6 +578,9 @@ func (w *World) startIncarnation(why string) {
 			rerr = inc.ctrl.Run(inc.ctx)
 		case "master":
 			rerr = inc.ctrl.RunWhenMaster(inc.ctx)
+		case "migration":
+			hasRV = false
+			core.RunMigration(inc.ctx, []*core.Controller{inc.ctrl})
 		default:
 			hasRV = false
 			inc.ctrl.RunWhenMasterWithRestarts(inc.ctx)
@@ -509,17 +641,21 @@ func applicable(p *kernel.Parked) []string {
 			if c.B > c.A {
 				ks = append(ks, "rpc.short")
 			}
+			ks = append(ks, "rpc.empty", "entries.malformed")
 		case "get-sth-consistency":
 			ks = append(ks, "proof.bad")
 		case "get-sth":
-			ks = append(ks, "sth.badsig")
+			ks = append(ks, "sth.badsig", "sth.stale")
 		}
 		return ks
 	case *dstCall:
 		if c.RPC == "AddSequencedLeaves" {
-			return []string{"quota", "rpc.status", "rpc.hang", "rpc.lateerr"}
+			if len(c.Add.GetLeaves()) == 0 {
+				return []string{"rpc.status"}
+			}
+			return []string{"quota", "rpc.status", "rpc.hang", "rpc.lateerr", "rpc.nilrsp"}
 		}
-		return []string{"rpc.status", "rpc.hang"}
+		return []string{"rpc.status", "rpc.hang", "rpc.malformed"}
 	case *elCall:
 		if c.Op == "WithMastership" {
 			return []string{"el.err", "el.lost"}
@@ -527,6 +663,31 @@ func applicable(p *kernel.Parked) []string {
 		return []string{"el.err"}
 	}
 	return nil
+}
+
+// faultParam draws the parameter of a fault kind; pick(n) yields a choice in [0,n) (tape on the driver,
+// hash of the seam key in timed mode).
+func (w *World) faultParam(kind string, p *kernel.Parked, pick func(n int) int) int64 {
+	switch kind {
+	case "http.status":
+		return int64(httpFaultCodes[pick(len(httpFaultCodes))])
+	case "rpc.status":
+		return int64(fatalCodes[pick(len(fatalCodes))])
+	case "net.cut", "proof.bad":
+		return int64(pick(64))
+	case "rpc.short":
+		c := p.Info.(*srcCall)
+		return int64(1 + pick(int(c.B-c.A)))
+	case "sth.badsig":
+		return int64(pick(len(sthBadKinds)))
+	case "sth.stale":
+		return int64(pick(max(w.src.Size, 1)))
+	case "entries.malformed":
+		return int64(pick(len(malformedKinds))*16 + pick(16))
+	case "rpc.malformed":
+		return int64(pick(len(rootMalformedKinds)))
+	}
+	return 0
 }
 
 func (w *World) okOpt(p *kernel.Parked, weight int) kernel.Option {
@@ -552,17 +713,7 @@ func (w *World) faultOpt(p *kernel.Parked) (kernel.Option, bool) {
 	return kernel.Option{Key: "fault " + p.Key, Weight: total, Apply: func() {
 		t := w.s.T
 		d := kernel.Decision{Kind: ks[t.Pick(weights)]}
-		switch d.Kind {
-		case "http.status":
-			d.N = int64(httpFaultCodes[t.Intn(len(httpFaultCodes))])
-		case "rpc.status":
-			d.N = int64(fatalCodes[t.Intn(len(fatalCodes))])
-		case "net.cut", "proof.bad":
-			d.N = int64(t.Intn(64))
-		case "rpc.short":
-			c := p.Info.(*srcCall)
-			d.N = int64(t.Range(1, int(c.B-c.A)))
-		}
+		d.N = w.faultParam(d.Kind, p, t.Intn)
 		w.s.Fault(d.Kind)
 		w.answer(p, d)
 	}}, true
@@ -580,6 +731,7 @@ func (w *World) answer(p *kernel.Parked, d kernel.Decision) {
 		w.answerDst(inc, c, d)
 	case *elCall:
 		w.s.Logf("c%d election %s -> %s", c.Inc, c.Op, d.Kind)
+		w.breakEpoch(inc, "election "+c.Op)
 		if d.Kind == "ok" && c.Op == "Await" && inc != nil && inc.Passes > 0 {
 			w.s.Probe("master.reacquired")
 		}
@@ -592,6 +744,17 @@ func (w *World) answerSrc(inc *incarnation, c *srcCall, d kernel.Decision) {
 	ps := inc.Pass
 	if ps == nil {
 		ps = &pass{}
+	}
+	if w.mode.Ctl {
+		defer func() {
+			clean := (d.Kind == "ok" || d.Kind == "sth.stale") && c.Err == nil && c.Status == 200
+			if c.Endpoint == "get-sth-consistency" && !ps.GateOpen {
+				clean = false
+			}
+			if d.Kind == "entries.malformed" || (c.Endpoint != "get-entries" && !clean) {
+				w.breakEpoch(inc, c.Endpoint+" "+d.Kind)
+			}
+		}()
 	}
 	now := time.Now()
 	tag := fmt.Sprintf("c%d %s %d-%d", c.Inc, c.Endpoint, c.A, c.B)
@@ -637,10 +800,24 @@ func (w *World) answerSrc(inc *incarnation, c *srcCall, d kernel.Decision) {
 	}
 	switch c.Endpoint {
 	case "get-sth":
-		body, size, root := w.src.STH(now, d.Kind == "sth.badsig")
+		size, bad := w.src.Size, ""
+		if d.Kind == "sth.badsig" {
+			bad = sthBadKinds[int(d.N)%len(sthBadKinds)]
+			s.Probe("sth.bad." + bad)
+		}
+		if d.Kind == "sth.stale" && w.src.Size > 0 {
+			// an honest but lagging front end: a validly signed older tree head
+			size = int(d.N) % w.src.Size
+			s.Probe("sth.stale.served")
+			if ps.RootKnown && uint64(size) < ps.RootSize {
+				s.Probe("sth.stale.smaller-than-destination")
+			}
+		}
+		body, root := w.src.STH(now, size, bad)
 		c.Status, c.Body = 200, body
 		cut()
-		if d.Kind == "ok" {
+		if d.Kind == "ok" || d.Kind == "sth.stale" {
+			w.ctlSTH(inc, ps, size, d.Kind == "sth.stale")
 			ps.STHKnown, ps.STHSize, ps.STHRoot = true, size, root
 			if size > w.src.MaxSTH {
 				w.src.MaxSTH = size
@@ -649,16 +826,26 @@ func (w *World) answerSrc(inc *incarnation, c *srcCall, d kernel.Decision) {
 				w.verifiedMax = size
 			}
 		}
-		s.Logf("%s -> sth size=%d hist=%s (%s)", tag, size, w.src.Hist.Name, d.Kind)
+		s.Logf("%s -> sth size=%d hist=%s (%s %s)", tag, size, w.src.Hist.Name, d.Kind, bad)
 	case "get-entries":
-		limit := 0
-		if d.Kind == "rpc.short" {
+		limit, mal, malAt := 0, "", 0
+		switch d.Kind {
+		case "rpc.short":
 			limit = int(d.N)
+		case "rpc.empty":
+			limit = -1
+		case "entries.malformed":
+			mal, malAt = malformedKinds[int(d.N/16)%len(malformedKinds)], int(d.N%16)
+			s.Probe("entries.malformed." + mal)
+			// the controller may give the pass up over an entry it cannot decode: that is not a dropped quota retry
+			if inc.Pass != nil && inc.Pass.Excuse == "" {
+				inc.Pass.Excuse = "malformed-entry"
+			}
 		}
-		st, body, n := w.src.Entries(c.A, c.B, limit)
+		st, body, n := w.src.Entries(c.A, c.B, limit, mal, malAt)
 		c.Status, c.Body = st, body
 		cut()
-		s.Logf("%s -> %d n=%d (%s)", tag, st, n, d.Kind)
+		s.Logf("%s -> %d n=%d (%s %s)", tag, st, n, d.Kind, mal)
 	case "get-sth-consistency":
 		st, proof, errBody := w.src.Consistency(c.A, c.B)
 		if st != 200 {
@@ -671,7 +858,14 @@ func (w *World) answerSrc(inc *incarnation, c *srcCall, d kernel.Decision) {
 		if d.Kind == "proof.bad" {
 			proof, how = mutateProof(proof, int(d.N))
 		}
-		c.Status, c.Body = 200, consistencyBody(proof)
+		omit := kernel.HashChoice(s.Seed, fmt.Sprintf("omit-empty|%d|%d|%d", c.Inc, c.A, c.B), 2) == 1
+		c.Status, c.Body = 200, consistencyBody(proof, omit)
+		if len(proof) == 0 && d.Kind != "proof.bad" {
+			s.Probe("proof.empty.served")
+			if omit {
+				s.Probe("proof.empty.field-absent")
+			}
+		}
 		cut()
 		// does what is being served prove that the STH of this pass is consistent with the destination root of this pass?
 		verdict := "proves"
@@ -702,6 +896,17 @@ func (w *World) answerSrc(inc *incarnation, c *srcCall, d kernel.Decision) {
 
 func (w *World) answerDst(inc *incarnation, c *dstCall, d kernel.Decision) {
 	s := w.s
+	if w.mode.Ctl {
+		defer func() {
+			acked := d.Kind == "ok" && c.Err == nil && c.AddRsp != nil
+			if c.Add != nil {
+				w.ctlAnswered(inc, c.Add, acked)
+			}
+			if d.Kind != "quota" && (d.Kind != "ok" || c.Err != nil) {
+				w.breakEpoch(inc, c.RPC+" "+d.Kind)
+			}
+		}()
+	}
 	ps := inc.Pass
 	if ps == nil {
 		ps = &pass{GateWhy: "no-root"}
@@ -730,11 +935,47 @@ func (w *World) answerDst(inc *incarnation, c *dstCall, d kernel.Decision) {
 		if ps.Quota == nil {
 			ps.Quota = map[int64]*quotaRec{}
 		}
+		burst := 1
 		if prev := ps.Quota[first]; prev != nil && prev.Retried {
 			s.Probe("quota.burst") // the retry of a batch is answered ResourceExhausted again
+			burst = prev.Burst + 1
+			if burst == 5 {
+				s.Probe("quota.burst.5plus") // past the point where the back-off reaches its cap
+			}
 		}
-		ps.Quota[first] = &quotaRec{Count: len(c.Add.Leaves), At: s.Now()}
+		ps.Quota[first] = &quotaRec{Count: len(c.Add.Leaves), At: s.Now(), Burst: burst}
 		s.Logf("%s -> quota (ResourceExhausted)", tag)
+		return
+	}
+	if d.Kind == "rpc.malformed" { // GetLatestSignedLogRoot only: a reply without a usable log root
+		kind := rootMalformedKinds[int(d.N)%len(rootMalformedKinds)]
+		rsp, _ := w.dst.GetLatestSignedLogRoot(c.Root)
+		switch kind {
+		case "nil-response":
+			rsp = nil
+		case "nil-root":
+			rsp.SignedLogRoot = nil
+		case "root-empty":
+			rsp.SignedLogRoot.LogRoot = nil
+		case "root-truncated":
+			rsp.SignedLogRoot.LogRoot = rsp.SignedLogRoot.LogRoot[:len(rsp.SignedLogRoot.LogRoot)/2]
+		case "root-version":
+			rsp.SignedLogRoot.LogRoot = append([]byte{0, 2}, rsp.SignedLogRoot.LogRoot[2:]...)
+		}
+		c.RootRsp = rsp
+		s.Probe("root.malformed." + kind)
+		s.Logf("%s -> malformed (%s)", tag, kind)
+		return
+	}
+	// like Trillian, the reference backend knows only its own tree
+	reqID := c.Root.GetLogId()
+	if c.Add != nil {
+		reqID = c.Add.GetLogId()
+	}
+	if reqID != w.prof.TreeID {
+		c.Err = status.Errorf(codes.NotFound, "tree %d not found", reqID)
+		ps.Excuse = "fatal-reply"
+		s.Logf("%s -> NotFound: request names tree %d", tag, reqID)
 		return
 	}
 	switch c.RPC {
@@ -745,6 +986,7 @@ func (w *World) answerDst(inc *incarnation, c *dstCall, d kernel.Decision) {
 		if ps.RootSize == 0 {
 			ps.GateOpen = true // any head is consistent with the empty root
 		}
+		w.ctlPassStart(inc, ps)
 		s.Logf("%s -> root size=%d", tag, w.dst.RootSize)
 	case "AddSequencedLeaves":
 		rsp, err := w.dst.AddSequencedLeaves(c.Add, now)
@@ -761,6 +1003,15 @@ func (w *World) answerDst(inc *incarnation, c *dstCall, d kernel.Decision) {
 		}
 		ps.Delivered++
 		w.noteDelivered(inc, c.Add)
+		if err != nil { // the backend itself refused the request (e.g. no leaves in it)
+			ps.Excuse = "fatal-reply"
+			s.Probe("dst.backend-refused")
+		}
+		if d.Kind == "rpc.nilrsp" {
+			// applied, and the reply is an OK status without a message
+			c.AddRsp, c.Err = nil, nil
+			ps.Excuse = "fatal-reply"
+		}
 		if d.Kind == "rpc.lateerr" {
 			c.AddRsp, c.Err = nil, status.Error(codes.Unavailable, "simulated destination: connection lost after the request was applied")
 			ps.Excuse = "fatal-reply"
@@ -822,7 +1073,7 @@ func (w *World) Options(s *kernel.Sim) []kernel.Option {
 			s.Logf("source grows by %d to %d", k, w.src.Size)
 		}})
 	}
-	if w.dst.At(int64(len(w.dst.Seq))) != nil {
+	if w.dst.At(int64(len(w.dst.Seq))) != nil && !w.prof.SeqOff {
 		opts = append(opts, kernel.Option{Key: "sequence all", Weight: w.prof.SeqWeight, Apply: func() {
 			n := w.dst.Sequence(-1, time.Now().UnixNano(), false)
 			s.Logf("sequencer integrates %d -> size %d", n, w.dst.RootSize)
@@ -874,6 +1125,7 @@ func (w *World) Options(s *kernel.Sim) []kernel.Option {
 }
 
 func (w *World) excuse(inc *incarnation, why string) {
+	w.breakEpoch(inc, why)
 	if inc.Pass != nil && inc.Pass.Excuse == "" {
 		inc.Pass.Excuse = why
 	}
@@ -881,7 +1133,8 @@ func (w *World) excuse(inc *incarnation, why string) {
 
 // goal: the destination stores every index below the source's tree size.
 func (w *World) goalReached() bool {
-	for i := 0; i < w.src.Size; i++ {
+	lo, hi := w.wantRange(w.src.Size)
+	for i := lo; i < hi; i++ {
 		if w.dst.At(int64(i)) == nil {
 			return false
 		}
